@@ -318,6 +318,15 @@ func init() {
 		}
 		return m.sliceOfStrings(m.splitFork(m.needString(str(a[0]), "SplitN"), m.needString(str(a[1]), "SplitN"), n))
 	})
+	add("bytes.SplitN", func(m *Machine, _ *Thread, _ *Frame, a []Value, _ ssa.Value) Value {
+		n := m.concInt("splitn.n", a[2])
+		ts := m.splitFork(m.needString(m.termOf(a[0]), "bytes.SplitN"), m.needString(m.termOf(a[1]), "bytes.SplitN"), n)
+		e := make([]Value, len(ts))
+		for i, t := range ts {
+			e[i] = ByteSlice{T: t}
+		}
+		return SliceV{O: m.newObj(&ArrayV{E: e}, "splitn"), Len: len(ts), Cap: len(ts)}
+	})
 	add("strings.Join", func(m *Machine, _ *Thread, _ *Frame, a []Value, _ ssa.Value) Value {
 		sv := a[0].(SliceV)
 		sep := str(a[1])
